@@ -696,9 +696,14 @@ func (p *Parser) GroupByClause() ([]ColumnReference, error) {
 			return ret, err
 		}
 		if !found {
+			if len(ret) > 0 && p.Prev().Type == COMMA {
+				return ret, p.unexpectedTypeErr(IDENT)
+			}
 			break
 		}
 		ret = append(ret, cr)
+		// columns are separated by commas (a bare space is still accepted)
+		p.match(COMMA)
 	}
 
 	return ret, nil
